@@ -144,7 +144,8 @@ pub fn script(p: &mut Prng, max: usize) -> Script {
         }
         5 => { let n = p.usize_below(40); Script::new_op_return(&p.bytes(n)) }
         _ => {
-            let n = p.len_biased(max);
+            // where the caller allows very large blobs, a quarter of them sit on the 128 KiB mark
+            let n = if max > 131_073 && p.chance(1, 4) { 131_071 + p.usize_below(3) } else { p.len_biased(max) };
             Script::from(p.bytes(n))
         }
     }
